@@ -16,7 +16,8 @@ RULE = ('cases: RDKit-sane molecule models (C N O S F Cl Br, charged centres, ri
         'conformer and with one (EmbedMolecule(randomSeed=drawn)): every node then has a finite position equal '
         'to the conformer position of its atom index; an independent RDKit construction of the model decides '
         'whether RDKit accepts the molecule at all; (b) after embed_3d_via_rdkit every node has a finite position '
-        'and every bonded pair lies within 1.4 x the sum of covalent radii; (c) forward_map_molecule puts every '
+        'and every bonded pair lies within 1.4 x the sum of covalent radii (must fail in three embeddings while an '
+        'independent embedding of the model passes, otherwise inconclusive); (c) forward_map_molecule puts every '
         'bead at sum(w x)/sum(w) over exactly its member atoms (1e-9) and translating all atoms by t translates '
         'every bead by t. Embedding failures of RDKit are counted as inconclusive. non-trivial = >=2 fragments '
         '(iteration order differs from key order) or a non-unit weight; distinct = string + node order')
@@ -176,10 +177,6 @@ def oracle(case):
         hg = back_heavy(back)
         expect(molgen.same_mol(model_g, hg), 'rdkit:roundtrip',
                lambda: '%s: expected %s / after round trip %s' % (what, molgen.describe(model_g), molgen.describe(hg)))
-        # index correspondence: atom i of the RDKit molecule is the i-th node in iteration order
-        for i, n in enumerate(g.nodes):
-            expect(back.nodes[i].get('element') == g.nodes[n].get('element'), 'rdkit:atom-order',
-                   lambda: '%s: atom %d is %r, %d-th node %r is %r' % (what, i, back.nodes[i].get('element'), i, n, g.nodes[n].get('element')))
         # with a conformer
         mol2 = Chem.Mol(mol)
         if AllChem.EmbedMolecule(mol2, randomSeed=case['embed_seed']) != 0:
@@ -196,30 +193,70 @@ def oracle(case):
                 expect(p is not None and np.all(np.isfinite(p)) and np.allclose(p, [q.x, q.y, q.z], atol=1e-9),
                        'rdkit:conformer-position', lambda: '%s: node %d has position %r, conformer has %r' % (what, i, p, (q.x, q.y, q.z)))
             note('conformer_roundtrips')
-    # (b) embedding
-    for what, g in graphs:
-        g2 = g.copy()
-        try:
-            sut(embed_3d_via_rdkit, g2)
-        except SutError as e:
-            if e.type in ('ValueError', 'RuntimeError') and ('onformer' in e.msg or 'mbed' in e.msg):
-                note('embedding_failed_inconclusive')
-                continue
-            raise
-        note('embeddings_checked')
-        for n in g2.nodes:
-            p = g2.nodes[n].get('position')
-            expect(p is not None and len(p) == 3 and np.all(np.isfinite(p)), 'embed:position-missing',
-                   lambda: '%s: node %r has position %r' % (what, n, p))
+    # (b) embedding.  RDKit's embedding is stochastic and occasionally leaves a strained geometry; a
+    # wrong assignment of coordinates to atoms is systematic.  The predicate must fail in every one of
+    # three attempts AND an embedding of the independently built model must satisfy it, otherwise the
+    # case is inconclusive.
+    def long_bonds(g2):
         bad = []
         for a, b in g2.edges:
             d = float(np.linalg.norm(g2.nodes[a]['position'] - g2.nodes[b]['position']))
             lim = 1.4 * (RADII[g2.nodes[a]['element']] + RADII[g2.nodes[b]['element']])
             if d > lim:
                 bad.append((a, b, round(d, 2), round(lim, 2)))
-        expect(not bad, 'embed:bonded-atoms-far-apart',
-               lambda: '%s: %d of %d bonds longer than 1.4 x covalent radii, e.g. %r (coordinates on the wrong atoms)' % (
-                   what, len(bad), g2.number_of_edges(), bad[:3]))
+        return bad
+
+    def reference_ok():
+        for k in range(3):
+            mref = Chem.Mol(ref)
+            if AllChem.EmbedMolecule(mref, randomSeed=case['embed_seed'] + k) != 0:
+                continue
+            try:
+                AllChem.UFFOptimizeMolecule(mref)
+            except Exception:
+                continue
+            conf = mref.GetConformer()
+            ok = True
+            for bnd in mref.GetBonds():
+                i, j = bnd.GetBeginAtomIdx(), bnd.GetEndAtomIdx()
+                pi, pj = conf.GetAtomPosition(i), conf.GetAtomPosition(j)
+                d = math.dist((pi.x, pi.y, pi.z), (pj.x, pj.y, pj.z))
+                if d > 1.4 * (RADII[mref.GetAtomWithIdx(i).GetSymbol()] + RADII[mref.GetAtomWithIdx(j).GetSymbol()]):
+                    ok = False
+            if ok:
+                return True
+        return False
+    for what, g in graphs:
+        worst = None
+        for attempt in range(3):
+            g2 = g.copy()
+            try:
+                sut(embed_3d_via_rdkit, g2)
+            except SutError as e:
+                if e.type in ('ValueError', 'RuntimeError') and ('onformer' in e.msg or 'mbed' in e.msg):
+                    note('embedding_failed_inconclusive')
+                    worst = None
+                    break
+                raise
+            for n in g2.nodes:
+                p = g2.nodes[n].get('position')
+                expect(p is not None and len(p) == 3 and np.all(np.isfinite(p)), 'embed:position-missing',
+                       lambda: '%s: node %r has position %r' % (what, n, p))
+            bad = long_bonds(g2)
+            if not bad:
+                worst = None
+                note('embeddings_checked')
+                break
+            worst = (bad, g2.number_of_edges())
+        if worst is not None:
+            if not reference_ok():
+                note('strained_embedding_inconclusive')
+                continue
+            bad, ne = worst
+            raise Fail('embed:bonded-atoms-far-apart',
+                       '%s: in 3 of 3 embeddings bonds are longer than 1.4 x covalent radii (last: %d of %d, e.g. %r) while an '
+                       'embedding of the same molecule built independently has none: coordinates are on the wrong atoms' % (
+                           what, len(bad), ne, bad[:3]))
     # (c) forward mapping
     rnd = random.Random(case['coords_seed'])
     t = np.array(case['shift'])
